@@ -83,6 +83,30 @@ func GenPool(r *rand.Rand, n int, fanout bool) []string {
 			return add(p)
 		})
 	}
+	// patterns that end inside / exactly at the edges the others create: truncations and common prefixes
+	base := len(pool)
+	valid := func(p string) bool { _, _, err := parse(scratch, p); return err == nil }
+	for i := 0; i < base && len(pool) < n+n/2+4; i++ {
+		p := pool[r.IntN(base)]
+		if strings.ContainsAny(p[max(0, len(p)-3):], "{}*") {
+			continue
+		}
+		for _, cut := range []int{len(p) - 1, len(p) - 2} {
+			if cut > strings.IndexByte(p, '/') && valid(p[:cut]) && r.IntN(2) == 0 {
+				add(p[:cut])
+			}
+		}
+	}
+	for i := 0; i < base && len(pool) < n+n/2+8; i++ {
+		a, b := pool[r.IntN(base)], pool[r.IntN(base)]
+		l := 0
+		for l < len(a) && l < len(b) && a[l] == b[l] {
+			l++
+		}
+		if l > strings.IndexByte(a, '/') && l < len(a) && l < len(b) && !strings.Contains(a[strings.LastIndexByte(a[:l], '/')+1:l], "{") && valid(a[:l]) {
+			add(a[:l])
+		}
+	}
 	// conflicting variants: rename one wildcard
 	k := len(pool)
 	for i := 0; i < k && len(pool) < n+n/3+2; i++ {
@@ -223,6 +247,95 @@ func GenOps(r *rand.Rand, c *Case, n int, txnMode int, invalid bool) {
 	if inTxn {
 		c.Ops = append(c.Ops, Op{Kind: "commit"})
 	}
+}
+
+// GenStory generates a short directed history: a committed prelude, then a write transaction that first writes a
+// pattern other registered patterns extend (preferably one that is not registered yet, i.e. the key of a branching
+// node) and then writes below it, then ends (aborted two times out of three), then a few more random operations.
+// It complements GenOps, where such a sequence inside one transaction is rare.
+func GenStory(r *rand.Rand, c *Case) {
+	m := c.Methods[0]
+	reg := map[string]bool{}
+	nPre := 2 + r.IntN(len(c.Pool))
+	for i := 0; i < nPre; i++ {
+		p := c.Pool[r.IntN(len(c.Pool))]
+		if !reg[p] {
+			reg[p] = true
+			c.Ops = append(c.Ops, Op{Kind: "handle", Method: m, Pattern: p})
+		}
+	}
+	ext := func(l string) []string {
+		var out []string
+		for _, q := range c.Pool {
+			if q != l && strings.HasPrefix(q, l) {
+				out = append(out, q)
+			}
+		}
+		return out
+	}
+	// candidates: pool patterns extended by >= 2 others
+	var cand, best []string
+	for _, l := range c.Pool {
+		e := ext(l)
+		n := 0
+		for _, q := range e {
+			if reg[q] {
+				n++
+			}
+		}
+		if len(e) >= 2 {
+			cand = append(cand, l)
+			if n >= 2 && !reg[l] {
+				best = append(best, l)
+			}
+		}
+	}
+	if len(best) > 0 && r.IntN(4) > 0 {
+		cand = best
+	}
+	if len(cand) == 0 {
+		GenOps(r, c, 20, 1, false)
+		return
+	}
+	for round := 0; round < 1+r.IntN(2); round++ {
+		l := cand[r.IntN(len(cand))]
+		e := ext(l)
+		c.Ops = append(c.Ops, Op{Kind: "begin"})
+		switch {
+		case !reg[l] || r.IntN(3) > 0:
+			c.Ops = append(c.Ops, Op{Kind: "handle", Method: m, Pattern: l})
+		case r.IntN(2) == 0:
+			c.Ops = append(c.Ops, Op{Kind: "update", Method: m, Pattern: l})
+		default:
+			c.Ops = append(c.Ops, Op{Kind: "delete", Method: m, Pattern: l})
+		}
+		for k := 0; k < 1+r.IntN(3); k++ {
+			q := e[r.IntN(len(e))]
+			kind := "handle"
+			if reg[q] {
+				kind = []string{"update", "delete", "update"}[r.IntN(3)]
+			}
+			c.Ops = append(c.Ops, Op{Kind: kind, Method: m, Pattern: q})
+		}
+		if r.IntN(3) > 0 {
+			c.Ops = append(c.Ops, Op{Kind: "abort"})
+		} else {
+			c.Ops = append(c.Ops, Op{Kind: "commit"})
+			break // reg is no longer accurate
+		}
+	}
+	if r.IntN(2) == 0 {
+		GenOps(r, c, len(c.Ops)+r.IntN(8), 1, false)
+	}
+}
+
+// GenFull generates a history that first registers the whole pool for the first method (so that wide nodes really
+// are wide) and then runs n random operations on it.
+func GenFull(r *rand.Rand, c *Case, n int, txnMode int) {
+	for _, p := range c.Pool {
+		c.Ops = append(c.Ops, Op{Kind: "handle", Method: c.Methods[0], Pattern: p})
+	}
+	GenOps(r, c, len(c.Ops)+n, txnMode, false)
 }
 
 // ErrClass maps a fox error to the model's vocabulary.
